@@ -716,3 +716,25 @@ pub fn explore(model: HistModel) -> ExploreStats {
         max_depth: checker.max_depth() as u64,
     }
 }
+
+/// Carries a library object to another thread whatever auto traits its current definition has: a
+/// change that makes a cipher object !Send / !Sync must not stop the harness from building (that would be a
+/// machinery error, not a verdict).  Every use hands the object over through spawn / join, never
+/// concurrently, so no access races with another.
+pub struct Xfer<T>(T);
+unsafe impl<T> Send for Xfer<T> {}
+unsafe impl<T> Sync for Xfer<T> {}
+impl<T> Xfer<T> {
+    pub fn new(t: T) -> Self {
+        Xfer(t)
+    }
+    pub fn get(&self) -> &T {
+        &self.0
+    }
+    pub fn get_mut(&mut self) -> &mut T {
+        &mut self.0
+    }
+    pub fn into_inner(self) -> T {
+        self.0
+    }
+}
